@@ -148,6 +148,7 @@ func cmdSelftest(args []string) {
 	}
 	fmt.Printf("selftest: %d mutants, %d killed, %d survived/errors\n", len(results), len(results)-survived, survived)
 	if survived > 0 {
+		os.RemoveAll(scratch)
 		os.Exit(2)
 	}
 }
